@@ -515,19 +515,26 @@ def run(check):
 
     # (M) design-level model checking, and (M->R) TLC enumerating the scenarios:
     # independent TLC runs side by side (large families in parts)
-    common = "LN = %d\nLV = %d\nLP = %d\nK = %d\nDup = %s\nNB = %d\nAllTemplates = %s" % (
-        (2, 2, 1, 4, "FALSE", 2, "FALSE") if quick else (3, 3, 2, 5, "TRUE", 3, "TRUE"))
-    # thorough: A and B in one part per kind (request, response, push promise, trailers
-    # of a request), C also over the two further templates (pushed response, trailers
-    # of a response), D in one part per role / stream
-    jobs = [("A", 0), ("B", 0), ("C", 0), ("D", 0)] if quick else \
-           [("C", 0)] + [("D", k) for k in range(1, 4)] + [("B", k) for k in range(1, 5)] + [("A", k) for k in range(1, 5)]
+    def consts(ln, lv, lp, k, dup, nb, all_templates):
+        return "LN = %d\nLV = %d\nLP = %d\nK = %d\nDup = %s\nNB = %d\nAllTemplates = %s" % (ln, lv, lp, k, dup, nb, all_templates)
+    if quick:
+        common = consts(2, 2, 1, 4, "FALSE", 2, "FALSE")
+        jobs = [(fam, 0, common) for fam in "ABCD"]
+    else:
+        # A and B in one part per kind: the full bounds for requests and responses
+        # (parts 1, 2), smaller ones for push promises and trailers of a request
+        # (parts 3, 4); C also over the two further templates (pushed response,
+        # trailers of a response); D in one part per role / stream.  Small parts first.
+        full, less = consts(3, 3, 2, 5, "TRUE", 3, "TRUE"), consts(3, 3, 1, 4, "TRUE", 3, "TRUE")
+        jobs = [("C", 0, full)] + [("D", k, full) for k in (1, 2, 3)] + \
+               [("B", k, less) for k in (3, 4)] + [("A", k, less) for k in (3, 4)] + \
+               [("B", k, full) for k in (1, 2)] + [("A", k, full) for k in (1, 2)]
     ex = ThreadPoolExecutor(max_workers=5 if quick else 6)
     fut_m = ex.submit(check.run_tlc, "HeaderRulesMC",
                       "SPECIFICATION Spec\nCONSTANT MaxBody = %d\nBig = %s\nINVARIANT TypeOk\n"
                       "INVARIANT DeliveredWellFormed\nINVARIANT EndedMatches\n" % ((2, "FALSE") if quick else (2, "TRUE")),
                       name="HeaderRulesMC", workers=4)
-    futs = [(fam, part, ex.submit(tlc_cases, check, fam, part, common)) for fam, part in jobs]
+    futs = [(fam, part, ex.submit(tlc_cases, check, fam, part, c)) for fam, part, c in jobs]
 
     # the driver replays every enumerated scenario; records are judged by TLC in
     # batches while the replay (and the enumeration of later parts) goes on.
